@@ -1180,6 +1180,89 @@ func (v *Verifier) noteEscape(fr *Frame, st *State, val Value, into *Object) {
 	v.markEscaped(val, st)
 }
 
+// escapeThroughResult: what is reachable from a returned value outlives the call. The objects allocated by the
+// function stay "fresh" (they are the result); objects that existed at entry and are referenced from inside them
+// (an argument slice stored into a field of the returned object) count as escaped (noescape(x)).
+func (v *Verifier) escapeThroughResult(val Value, st *State, seen map[*Object]bool) {
+	visit := func(o *Object, inner bool) {
+		if o == nil || seen[o] {
+			return
+		}
+		seen[o] = true
+		if o.Entry {
+			if inner {
+				v.escaped[o] = true
+			}
+			return
+		}
+		if cont, ok := st.mem[o]; ok {
+			v.escapeInner(cont, st, seen)
+		}
+		for _, c := range v.contains[o] {
+			v.escapeInner(c, st, seen)
+		}
+	}
+	switch x := val.(type) {
+	case *PtrV:
+		visit(x.Obj, false)
+	case *SliceV:
+		visit(x.Obj, false)
+	case *IfaceV:
+		if x.V != nil {
+			v.escapeThroughResult(x.V, st, seen)
+		}
+	case *TupleV:
+		for _, e := range x.Elems {
+			v.escapeThroughResult(e, st, seen)
+		}
+	case *AggV:
+		for _, e := range x.Elems {
+			v.escapeThroughResult(e, st, seen)
+		}
+	case *IteV:
+		v.escapeThroughResult(x.A, st, seen)
+		v.escapeThroughResult(x.B, st, seen)
+	}
+}
+
+func (v *Verifier) escapeInner(val Value, st *State, seen map[*Object]bool) {
+	switch x := val.(type) {
+	case *PtrV:
+		if x.Obj != nil {
+			if x.Obj.Entry {
+				v.escaped[x.Obj] = true
+			} else if !seen[x.Obj] {
+				seen[x.Obj] = true
+				if cont, ok := st.mem[x.Obj]; ok {
+					v.escapeInner(cont, st, seen)
+				}
+			}
+		}
+	case *SliceV:
+		if x.Obj != nil {
+			if x.Obj.Entry {
+				v.escaped[x.Obj] = true
+			} else if !seen[x.Obj] {
+				seen[x.Obj] = true
+				if cont, ok := st.mem[x.Obj]; ok {
+					v.escapeInner(cont, st, seen)
+				}
+			}
+		}
+	case *AggV:
+		for _, e := range x.Elems {
+			v.escapeInner(e, st, seen)
+		}
+	case *IfaceV:
+		if x.V != nil {
+			v.escapeInner(x.V, st, seen)
+		}
+	case *IteV:
+		v.escapeInner(x.A, st, seen)
+		v.escapeInner(x.B, st, seen)
+	}
+}
+
 func (v *Verifier) markEscaped(val Value, st *State) {
 	switch x := val.(type) {
 	case *SliceV:
